@@ -171,8 +171,9 @@ impl Prop for PtProp {
     }
     fn rule(&self, tier: Tier) -> String {
         let (d, l, k) = self.bounds(tier);
+        let consist_part = if self.which == "C01" || self.which == "C09" { format!(" PLUS consists: {}", super::consist_lab::rule(self.which, tier)) } else { String::new() };
         format!(
-            "E-SEQ on real Locomotive objects driven like LocomotiveSimulation::solve_step: alphabet = {} letters (13 demands relative to the limits just published: {:?}; dt in {:?} (20 s for C01 only){}), every sequence of length <= {} (FULL), every sequence of length {} departing from the default letter (0.6M, dt=1, engine on) in <= 1 position (DEV(L,1)) on every powertrain configuration of the {} PT family (conventional + battery-electric), and every sequence of length {} with <= 2 departures (DEV(L,2)) on the star-design configurations. Oracle on every accepted step (= every prefix of every history). distinct_nontrivial = number of distinct behaviour signatures (unit type x traction/regen/dyn-brake/zero x which transient bound is active x which limit binds x engine command x dt, and rejected-letter x error kind).",
+            "E-SEQ on real Locomotive objects driven like LocomotiveSimulation::solve_step: alphabet = {} letters (13 demands relative to the limits just published: {:?}; dt in {:?} (20 s for C01 only){}), every sequence of length <= {} (FULL), every sequence of length {} departing from the default letter (0.6M, dt=1, engine on) in <= 1 position (DEV(L,1)) on every powertrain configuration of the {} PT family (conventional + battery-electric), and every sequence of length {} with <= 2 departures (DEV(L,2)) on the star-design configurations. Oracle on every accepted step (= every prefix of every history). distinct_nontrivial = number of distinct behaviour signatures (unit type x traction/regen/dyn-brake/zero x which transient bound is active x which limit binds x engine command x dt, and rejected-letter x error kind).{}",
             letters_for(self.which).len(),
             DEMANDS,
             DTS,
@@ -180,7 +181,8 @@ impl Prop for PtProp {
             d,
             l,
             if tier.is_thorough() { "full-product" } else { "star-design" },
-            k
+            k,
+            consist_part
         )
     }
     fn assumptions(&self) -> Vec<String> {
@@ -225,9 +227,15 @@ impl Prop for PtProp {
                 }
             }
         }
+        if self.which == "C01" || self.which == "C09" {
+            super::consist_lab::explore(ctx, self.which);
+        }
         ctx.finish();
     }
     fn replay(&self, case: &Value) -> ReplayOutcome {
+        if case.get("units").is_some() {
+            return super::consist_lab::replay(self.which, case);
+        }
         let c: LocoCase = match serde_json::from_value(case.clone()) {
             Ok(c) => c,
             Err(e) => return ReplayOutcome { violations: vec![("bad-replay-file".into(), e.to_string())], observation: String::new() },
@@ -244,5 +252,36 @@ impl Prop for PtProp {
         }
         let obs = format!("{:?} | final i={} pwr_out={} accepted={:?}", steps.iter().map(|x| x.0.demand).collect::<Vec<_>>(), fl.state.i, fl.state.pwr_out.value, steps.iter().map(|x| x.0.accepted).collect::<Vec<_>>());
         ReplayOutcome { violations: v, observation: obs }
+    }
+}
+
+/// C10: consist-only exploration
+pub struct C10;
+impl Prop for C10 {
+    fn id(&self) -> &'static str {
+        "C10"
+    }
+    fn rule(&self, tier: Tier) -> String {
+        super::consist_lab::rule("C10", tier)
+    }
+    fn assumptions(&self) -> Vec<String> {
+        vec![
+            "stated bound: exhaustive over ordered compositions of <= 3 units from the unit-variant alphabet and all {conv,BEL}^4; 5..8-unit consists are representative only".into(),
+            "sum-to-request uses the code's own almost_eq (1e-8); unit limits carry the code's TOL on the upstream component limit".into(),
+            "a panic inside a consist step (e.g. RESGreedy's assert) is reported as a violation: it is neither an accepted step nor an error value".into(),
+        ]
+    }
+    fn wall_cap_s(&self, tier: Tier) -> u64 {
+        match tier {
+            Tier::Quick => 100,
+            Tier::Thorough => 2400,
+        }
+    }
+    fn explore(&self, ctx: &mut Ctx) {
+        super::consist_lab::explore(ctx, "C10");
+        ctx.finish();
+    }
+    fn replay(&self, case: &Value) -> ReplayOutcome {
+        super::consist_lab::replay("C10", case)
     }
 }
